@@ -198,6 +198,27 @@ def run_c08(run: core.Run, n_rp: int) -> None:
                         exp = f"{py[2]},{int(py[3:]) if len(py) > 3 else 0},{kind}"
                         if out != exp:
                             run.fail(core.Failure(f"score|{rp_text}|{impl_s}|{py}|{abi}", f"score {out}, expected {exp}", rep))
+    # EnvSpec.compatibility on multi-tag wheels (compressed tag sets): the verdict is the lexicographically best
+    # loadable python x abi combination (C08.compatibility_score), whatever the order of the tags (C08.compatibility_perm)
+    n_multi = 0
+    for _ in range(run.size(400 if run.tier == "quick" else 6000)):
+        rp_text = rng.choice(rps)
+        impl_s = rng.choice(IMPLS)
+        env = EnvSpec(parse_version_specifier(rp_text), None, mk_impl(impl_s))
+        wp = rng.sample(pys, rng.randint(1, 3))
+        wa = list({a for p_ in wp for a in rng.sample(abi_tags_for(p_), min(2, len(abi_tags_for(p_))))})[:3]
+        got = env.compatibility(wp, wa, ["any"])
+        out = enc_out(lambda: got)
+        run.add(core.Case("compat-multi", f"e.compat\t{enc_spec(env.requires_python)}\t-\t{impl_s}\t{'.'.join(wp)}\t{'.'.join(wa)}\tany", out))
+        n_multi += 1
+        scores = [s_ for s_ in (env._evaluate_python(p_, a_) for p_ in wp for a_ in wa) if s_ is not None]
+        want = (max(scores) + (-1,)) if scores else None
+        rev = env.compatibility(wp[::-1], wa[::-1], ["any", "any"])
+        if got != want or rev != got:
+            run.fail(core.Failure(f"multi|{rp_text}|{impl_s}|{wp}|{wa}", f"requires_python {rp_text!r} impl {impl_s}: compatibility({wp}, {wa}) = "
+                                  f"{got}, best combination {want}, tags reversed {rev}",
+                                  {"op": "multi", "rp": rp_text, "impl": impl_s, "py": wp, "abi": wa}))
+    run.extra["multi_tag_wheels"] = n_multi
     # the free-threading flag as the library itself obtains it: sysconfig's Py_GIL_DISABLED is the int 1 on a
     # free-threaded build (fixed finding D33: the flag was compared by identity, so EnvSpec.current() on python3.13t
     # rejected its own cp313-cp313t); every way of stating the flag must answer like `True` / `False`
@@ -711,6 +732,11 @@ def replay(data: dict) -> bool:
         admitted = [v for v in CANDIDATES if smem(rp, v)]
         got = env._evaluate_python(r["py"], r["abi"]) is not None
         return got != any(loads(r["impl"], r["py"], r["abi"], v) for v in admitted)
+    if r["op"] == "multi":
+        env = EnvSpec(parse_version_specifier(r["rp"]), None, mk_impl(r["impl"]))
+        got = env.compatibility(r["py"], r["abi"], ["any"])
+        scores = [s_ for s_ in (env._evaluate_python(p_, a_) for p_ in r["py"] for a_ in r["abi"]) if s_ is not None]
+        return got != ((max(scores) + (-1,)) if scores else None) or env.compatibility(r["py"][::-1], r["abi"][::-1], ["any", "any"]) != got
     if r["op"] == "gilflag":
         return gilflag_differs(r["rp"], r["flag"], r["py"], r["abi"])
     if r["op"] == "tags":
